@@ -120,6 +120,9 @@ type Frag struct {
 	Type    codec.Command
 	Ok      bool // for mset
 	Done    bool // is the current frag completed
+
+	Discard   bool // the reply is swallowed by the proxy (ASKING sent ahead of a redirected command)
+	Redirects int  // number of MOVED/ASK redirects followed so far
 }
 
 func (f *Frag) MsgId() uint64 {
